@@ -352,3 +352,12 @@ Proof.
     { apply filter_In. split; [exact Hxa|]. unfold is_open. rewrite Hdx, N.eqb_refl. apply memN_false in Hn. rewrite Hn. reflexivity. }
     rewrite Hcr in Hf. destruct Hf.
 Qed.
+
+(* the same fact in terms of reachable states *)
+Lemma safe_graph_pairs G order pairs : safe_graph G order pairs = true ->
+  wf_graph G /\ forall w y, In (w, y) pairs -> wfin_before G w y.
+Proof.
+  intro Hs. unfold safe_graph in Hs. apply andb_true_iff in Hs as [Hw Hp]. apply wf_graphb_sound in Hw.
+  split; [exact Hw|]. intros w y Hin. rewrite forallb_forall in Hp. specialize (Hp (w, y) Hin).
+  exact (pair_ok_sound G (fst (closure G order)) (snd (closure G order)) w y (closure_sound G Hw order) Hp).
+Qed.
